@@ -152,6 +152,8 @@ class Case(object):
             return "%s %d %s %s %d %s" % (o, len(self.xp), v(self.xp), v(self.ys), len(self.qs), v(self.qs))
         if o == "newpar":
             return "newpar %d %d %s %d %s" % (self.order, len(self.cf), v(self.cf), len(self.xp), v(self.xp))
+        if o == "newparh":
+            return "newparh %d %d %d %d %d %s %d %s" % (self.order, self.pre, self.others, self.before, len(self.cf), v(self.cf), len(self.xp), v(self.xp))
         if o == "merr":
             return "merr %d %s %d %s %s %d" % (len(self.cf), v(self.cf), len(self.xp), v(self.xp), v(self.ys), self.tr)
         if o == "apply":
@@ -219,6 +221,10 @@ def parse_corpus_line(line):
         order = int(nxt())
         cf = vec(int(nxt()))
         return Case(op, order=order, cf=cf, xp=vec(int(nxt())))
+    if op == "newparh":
+        order, pre, others, before = int(nxt()), int(nxt()), int(nxt()), int(nxt())
+        cf = vec(int(nxt()))
+        return Case(op, order=order, pre=pre, others=others, before=before, cf=cf, xp=vec(int(nxt())))
     if op == "merr":
         cf = vec(int(nxt()))
         n = int(nxt())
@@ -620,7 +626,16 @@ def gen_range_cases(rng, count):
             if site == "range_new_parameter":
                 cf = fill(rng, lo, hi, nf)
                 n = rng.choice([2, 2, 3, 5])
-                out.append((Case("newpar", order=rng.randint(0, 1), cf=cf, xp=fill(rng, a, b, n)), site, classify(lo, hi, a, b), lo, hi, a, b))
+                xp = fill(rng, a, b, n)
+                if rng.random() < 0.4:
+                    out.append((Case("newpar", order=rng.randint(0, 1), cf=cf, xp=xp), site, classify(lo, hi, a, b), lo, hi, a, b))
+                else:
+                    # the decision must not depend on the history: other parameters in the vnacal_t (the handle of the
+                    # parameter under test is 3 + pre), other standards in the same vnacal_new_t before / after it
+                    pre = rng.choice([0, 1, 2, 4, 5, 6, 7, 8, 12, 13, 14, 19, 24, 29])
+                    others = rng.randint(0, 3) if pre == 0 else rng.randint(0, min(3 + pre + 4, 14))
+                    out.append((Case("newparh", order=rng.randint(0, 1), pre=pre, others=others, before=rng.randint(0, others),
+                                     cf=cf, xp=xp), site, classify(lo, hi, a, b), lo, hi, a, b))
             elif site == "range_m_error":
                 cf = fill(rng, lo, hi, nf)
                 n = rng.choice([2, 2, 3, 5])
@@ -758,8 +773,8 @@ def run(ctx):
                     if c is not None:
                         corpus.append(c)
     ctx.extra["corpus_cases"] = len(corpus)
-    corpus_range = [c for c in corpus if c.op in ("newpar", "merr", "apply")]
-    corpus = [c for c in corpus if c.op not in ("newpar", "merr", "apply")]
+    corpus_range = [c for c in corpus if c.op in ("newpar", "newparh", "merr", "apply")]
+    corpus = [c for c in corpus if c.op not in ("newpar", "newparh", "merr", "apply")]
     nrfi = 400 if not thorough else 6000
     npar = 120 if not thorough else 1500
     nspl = 250 if not thorough else 3000
@@ -772,7 +787,7 @@ def run(ctx):
     cases += gen_spline_cases(rng, nspl, R.min_dx)
     rcases = gen_range_cases(rng, nrng)
     for c in corpus_range:           # range cases of the corpus: verdict from the bands
-        if c.op == "newpar":
+        if c.op in ("newpar", "newparh"):
             rcases.append((c, "range_new_parameter", classify(c.cf[0], c.cf[-1], c.xp[0], c.xp[-1]), c.cf[0], c.cf[-1], c.xp[0], c.xp[-1]))
         elif c.op == "merr":
             rcases.append((c, "range_m_error", classify(c.cf[0], c.cf[-1], c.xp[0], c.xp[-1]), c.cf[0], c.cf[-1], c.xp[0], c.xp[-1]))
